@@ -5,7 +5,7 @@ ENGINES = [
          kind_free_text="CrossHair 0.0.110 (`crosshair check --report_all`) on contracts in harness/xsplit/contracts.py: symbolic Unicode strings"),
     dict(name="z3-direct", path="harness/q_slurm.py", serves_properties=["C18"],
          kind_free_text="direct z3 sequence/regex queries over unbounded strings generated from the live objects of /repo"),
-    dict(name="jsym", path="jsym/", serves_properties=["C01", "C02", "C03", "C04", "C05", "C06", "C07", "C08", "C09", "C10", "C12", "C13", "C14", "C15", "C16", "C17", "C18", "C19", "C20"],
+    dict(name="jsym", path="jsym/", serves_properties=["C01", "C02", "C03", "C04", "C05", "C06", "C07", "C08", "C09", "C10", "C11", "C12", "C13", "C14", "C15", "C16", "C17", "C18", "C19", "C20"],
          kind_free_text="own concolic executor on z3: proxy objects for ints/reals/bools, every branch decided by the solver, replay-based DFS to exhaustion, prefix-sharded over 16 processes; real JADE code runs natively"),
 ]
 
@@ -124,5 +124,10 @@ CLAIMS["C10"] = dict(
     note=_HN + " Operations are atomic under the cluster lock, so interleaving is at operation granularity. demote is only issued by a handle that was promoted (as every CLI call site does after the fix d9dd9bb).",
     technique="bounded symbolic execution with z3 (jsym): solver-chosen operation sequences and version numbers, exhaustive exploration")
 
+CLAIMS["C11"] = dict(
+    text="H-fault: submissions through the real CLI in the world model (2 independent jobs in two batches of one round; a chain of 3 over three rounds) with ONE fault placed by the solver at every effect point of every submitter round (login-node submit-jobs, compute-node try-submit-jobs, user try-submit-jobs): kill -9 of the round's process, kill of the whole node while it acts as submitter, EDQUOT at each write-open, lock Timeout at each lock acquisition, squeue failing on all retries of one round, sbatch failing on all retries of one submission; effect points are every lock acquire/release, every sbatch/squeue/child command and every write-open/remove/rename of the round; then solver-chosen later try-submit-jobs attempts from two hosts and the documented recovery, under both lock-library behaviours (markers never broken / stale and empty markers broken). Over the whole faulty history: no job in two successfully sbatch'ed batches, no job started twice, every start after its blockers exited, result files still parse, rows present at the fault and rows of every finished job stay readable, a transient squeue failure is followed by normal completion with complete results.",
+    note=_HN + " kill -9 = snapshot of the scratch directory and effect log at the kill point, Python stack unwound, snapshot restored. The schedule of node events is fixed (first enabled event): the quantifier of this property is the fault position, schedules are covered by C01-C05. Torn writes inside one write() are outside the claim.",
+    technique="bounded symbolic execution with z3 (jsym): the fault kind, position, lock-library behaviour and later attempts are solver variables, exhaustive exploration")
+
 _TODO = "check not built yet in this session (planned in DESIGN.md section 6); not claimed until it exists"
-NOT_APPLICABLE = {p: _TODO for p in ["C11"]}
+NOT_APPLICABLE = {}
